@@ -94,8 +94,11 @@ def parseXLine (line : String) : Option (Nat × List Nat) :=
     pure (lsid, leaves)
   | _ => none
 
+/-- the `unique` lines of the extension DSL; the lines of the XPath-dependent statements (`must` / `leafref` / `when <sid> <hex>`,
+read by `LyModel/Valid/XpValid.lean: parseXCons`) are skipped here -/
 def parseXdsl (b : Bytes) : Option (List (Nat × List Nat)) :=
-  if b.isEmpty then some [] else ((asciiString b).splitOn "\n").mapM parseXLine
+  if b.isEmpty then some []
+  else (((asciiString b).splitOn "\n").filter fun l => !(l.startsWith "must " || l.startsWith "leafref " || l.startsWith "when ")).mapM parseXLine
 
 def SchemaX.ofHex (dsl xdsl : String) : Option SchemaX := do
   let S ← Schema.ofHex dsl
